@@ -39,7 +39,36 @@ def gen_ops_cases(rng, tier, n_quick, n_thorough, refuse_sweep=False, steps=(4, 
         flush = rng.below(2)
         budget = 16 if rng.chance(9, 10) else 200
         cases.append(("g%d" % j, O.gen_history(rng, shape, ns, refuse=refuse, flush=flush, budget=budget)))
-    return cases
+    return cases + stale_inner_cases(rng)
+
+
+def stale_inner_cases(rng):
+    """allowance-scale histories the small random ones cannot reach (D26): get_mut on an element far into a list of
+    unsized elements, shrink that list (clear / remove / pop), then grow a PRECEDING sibling by about the whole
+    allowance: the list's recorded inner pointer is shifted past the end of the allocation"""
+    fam = U.family()
+    out = []
+    for idx, ulist_field, elem in ((7, 1, 1), (15, 1, 1)):
+        _, desc, ty = fam[idx]
+        big = [[rng.below(256)] for _ in range(rng.range(150, 260))]
+        fields = []
+        for fi, ft in enumerate(ty[1]):
+            if fi == ulist_field:
+                fields.append(("U", [([], ("L", big)), ([], ("L", []))]))
+            elif ft[0] == "L":
+                fields.append(("L", []))
+            elif ft[0] == "U":
+                fields.append(("U", []))
+            else:
+                fields.append(("B", []))
+        v0 = ("S", fields)
+        size0 = len(U.encode(ty, v0))
+        for shrink_op in ([33], [31, 0, 2], [31, 0, 1]):
+            grow = U.MAX_INC + (len(big) if shrink_op != [31, 0, 1] else len(big) - 8) - rng.range(0, 40)
+            steps = [[1, ulist_field, 34, elem], [1, ulist_field] + shrink_op,
+                     [1, 0, 10, 0, grow] + [1, 5] * grow, [90], [1, ulist_field, 34, 0], [1, 0, 11, 0, grow // 2]]
+            out.append(("stale%d_%d" % (idx, len(out)), O.encode_case(idx, desc, 0, -1, v0, steps)))
+    return out
 
 
 def describe(c):
